@@ -160,6 +160,9 @@ func (n node) TakeWithExpireCtx(ctx context.Context, val any, key string, query 
 }
 
 func (n node) asyncRetryDelCache(keys ...string) {
+	// 重试任务在后台存活到删除成功为止（最长一个多小时），必须持有自己的键副本，
+	// 不能引用调用方在 Del 返回后仍可改写的切片。
+	keys = append([]string(nil), keys...)
 	AddCleanTask(func() error {
 		_, err := n.rds.Del(keys...)
 		return err
